@@ -32,6 +32,14 @@ CLAIMED['C16'] = dict(
    text='Executable Coq specifications of .lzma (all four size/end-marker cases, picky mode), .lz (v0/v1, dictionary codes, CRC32/size/member-size, member loop, trailing data) and auto-detection, with Coq theorems (no axioms): the detection bytes 0xFD/0x4C are never valid .lzma property bytes, auto = the specific decoder selected by the first byte, .lzma followed by anything is an error under CONCATENATED, the lzip dictionary code table and the picky dictionary-size rule. Tied to the C decoders by differential runs (status, content, input position just past the end) on generated files of every flavour, one-shot and sliced.',
    note='PARTIAL: the LZMA1 core is shared with C03 (resumable decoder explored, not proved). .lz files are assembled by the harness (no encoder exists); end-marker-less .lzma streams come from the MicroLZMA encoder of the tree under test.',
    technique='Coq executable specification + theorems; differential correspondence', ref='§6 C16')
+CLAIMED['C01'] = dict(
+   text='Every encoder entry point (easy, stream with generated chains covering all 75 lc/lp/pb triples, dictionary sizes, five match finders, nice/depth, delta/BCJ prefixes, raw, .lzma, multithreaded, MicroLZMA with output limits, single-call) is run on inputs aimed at the code\'s boundaries (4 KiB/64 KiB/2 MiB limits, >4 MiB near-identical records, incompressible stretch with a small window, match-finder normalisation forced by a guarded hook) and every output is decoded both by the library and by the independent Coq specification decoder; output-limited MicroLZMA must yield exactly the reported prefix within the limit. Coq theorems (no axioms) give exact inverses for the delta filter, the ARM BCJ filter and the integer encoding for all inputs.',
+   note='PARTIAL: match finders / optimum parser are not modelled (losslessness of the chosen symbols is certified per run by decoding); the range-coder round-trip theorem is work in progress and listed in Properties_C01 only once proved. Hook: TUKAANI_PROJECT_XZ_VERIF in lz_encoder.c.',
+   technique='Coq inverse theorems for filter layers + round trip through an extracted Coq specification decoder', ref='§6 C01')
+CLAIMED['C02'] = dict(
+   text='Every encoder output is fed to the independent decoder written in Coq from the format documents, in strict mode (match distances below the declared dictionary size); it recomputes all size fields, CRC32s, Check, padding, Index and Backward Size, so acceptance with the exact input recovered and every byte consumed means the metadata is truthful. Coq theorems (no axioms): integer encoding canonical; the output-size bound functions are sufficient for the uncompressed-chunk fallback and wrap-free for every n; their model is checked against a table regenerated from the library on every run (thresholds by bisection). Single-call encoders are run with exactly bound(n) bytes on incompressible data around every 64 KiB boundary; multi-MiB outputs are walked chunk by chunk.',
+   note='PARTIAL: that every real encoder output is accepted is explored, not proved. Trusted: Coq kernel+vm_compute, gen_bounds translator, extraction, driver glue.',
+   technique='Coq proof of bound arithmetic + independent Coq specification decoder as validity oracle', ref='§6 C02')
 REASONS_PENDING = 'not yet built in this round (work in progress; see DESIGN.md §10 order of work)'
 props = [json.loads(l) for l in open(os.path.join(V, 'properties.jsonl'))]
 checks, na = [], []
